@@ -1,5 +1,5 @@
 """Registry of obligations per property (see DESIGN.md section 4)."""
-import os
+import os, sys
 from run import Ob
 
 OBLIGATIONS = {}
@@ -125,11 +125,11 @@ OBLIGATIONS['C05'] = [
        desc='File::writeULong/writeBool/writeByteString/writeMechanismTypeSet produce exactly the documented bytes (reference encoder) and the read calls return the written values', bounds='byte string of %d bytes, mechanism set of %d element(s); contents symbolic' % (nb, hm))
     for (nb, hm) in ((0, 0), (3, 1), (6, 1))
 ] + [
-    Ob('attrmap_%s' % name, 'C05/file_codec.cpp', FILE_REAL, tiers=(), defines={'OP': 2, 'BS_CAP': 16, 'FCAP': 64, 'CNT': cnt, 'K0': k0, 'K1': k1, 'BL': bl}, unwind=18, caps='C05/caps.h', throw_assert=True,
+    Ob('attrmap_%s' % name, 'C05/file_codec.cpp', FILE_REAL, tiers=('quick', 'thorough') if cnt < 2 else (), defines={'OP': 2, 'BS_CAP': 16, 'FCAP': 64, 'CNT': cnt, 'K0': k0, 'K1': k1, 'BL': bl}, unwind=18, caps='C05/caps.h', throw_assert=True,
        unwind_rules=[(r'^harness\.', 82)],
        desc='nested attribute map (CKA_WRAP_TEMPLATE style): writeAttributeMap produces exactly the documented bytes, readAttributeMap returns the same map and consumes exactly the written bytes; shape: %s' % name,
        bounds='%d entries, kinds (%d,%d) [0 bool,1 ulong,2 bytes,3 mechanism set], byte strings of %d bytes; keys and values symbolic' % (cnt, k0, k1, bl))
-    for (name, cnt, k0, k1, bl) in (('empty', 0, 0, 0, 0), ('bool', 1, 0, 0, 0), ('bytes3', 1, 2, 0, 3), ('ulong_bytes2', 2, 1, 2, 2), ('bytes0_bool', 2, 2, 0, 0), ('bool_mech', 2, 0, 3, 0), ('bytes4_bytes4', 2, 2, 2, 4))
+    for (name, cnt, k0, k1, bl) in (('empty', 0, 0, 0, 0), ('bool', 1, 0, 0, 0), ('ulong', 1, 1, 0, 0), ('bytes0', 1, 2, 0, 0), ('bytes3', 1, 2, 0, 3), ('mech', 1, 3, 0, 0), ('ulong_bytes2', 2, 1, 2, 2), ('bytes0_bool', 2, 2, 0, 0), ('bool_mech', 2, 0, 3, 0), ('bytes4_bytes4', 2, 2, 2, 4))
 ]
 META['C05'] = dict(outside='SQLite backend; files larger than the bounds; directory index; real file-system semantics beyond the model of harness/common/vio_model.h', assumptions=['model file system / stdio of harness/common/vio_model.h'])
 
@@ -167,6 +167,7 @@ _secret_units = [u for u in ATTR_UNITS if u[3]]
 OBLIGATIONS['C02'] = [_attr(*u, 0) for u in _secret_units] + [_attr(*u, 1) for u in ATTR_UNITS if u[0] in ('sensitive', 'extractable', 'wrap_with_trusted', 'value_secret')]
 OBLIGATIONS['C08'] = [_attr(*u, 1) for u in ATTR_UNITS if not u[3] or u[0] == 'value_secret']
 OBLIGATIONS['C06'] = [_attr(*u, 1) for u in ATTR_UNITS if u[0] in ('value_secret', 'label', 'private_exponent', 'prime1')]
+OBLIGATIONS['C06'] += [o for o in C01_OBJ if o.name == 'obj_copy']   # C_CopyObject: the template is stored according to the COPY's privacy
 META['C08'] = dict(outside='attribute composition of every class (which class registers which attribute with which footnote flags) beyond the compositions instantiated here; templates (order effects) are covered by saveTemplate obligation of C09', assumptions=['tagging model of Token::encrypt/decrypt'])
 META['C06'] = dict(outside='that AES-CBC / the PBE really hide the plaintext; SQLite backend; file permission bits are obligation file_mode when present', assumptions=['tagging model of Token::encrypt/decrypt: encrypt(x) = TAG||x'])
 META['C02'] = dict(outside='global non-interference over all output buffers of all calls (we prove the per-call refusal); derive-mechanism inheritance of the flags is obligation derive_* when present', assumptions=['tagging model of Token::encrypt/decrypt'])
@@ -294,6 +295,15 @@ def _sched(n, length=3):
     return o
 _C15 += [_sched(n) for n in range(64)]
 _C05F = [_fault(a) for a in range(OBJFILE_NOPS)]
+OBJFILE_NOPS_TX = 24   # file operations of one ObjectFile::commitTransaction (asserted by the no-fault instance)
+def _txfault(at):
+    o = _of(6, 'txfault_at_%d' % at if at < OBJFILE_NOPS_TX else 'tx_commit', ('file operation %d of ObjectFile::commitTransaction (two attributes changed in one transaction) fails: success is only reported when BOTH new values are on the (model) disk and flushed' % at) if at < OBJFILE_NOPS_TX else 'attribute transaction without fault: nothing reaches the disk before the commit, the commit makes both changes durable and visible to another instance')
+    o.defines['VIO_AT'] = at; o.defines['NOPS_TX'] = OBJFILE_NOPS_TX
+    if at in (0, 3, 5, 8, 12, 16, 19, 21, 23, OBJFILE_NOPS_TX): o.tiers = ('quick', 'thorough')
+    return o
+_C05TX = [_txfault(a) for a in range(OBJFILE_NOPS_TX + 1)]
+_TXABORT = _of(7, 'tx_abort', 'aborted attribute transaction: object unchanged in memory and on disk, a new transaction can start'); _TXABORT.tiers = ('quick', 'thorough')
+OBLIGATIONS['C05'] += _C05TX; OBLIGATIONS['C09'] += [_TXABORT] + [o for o in _C05TX if o.name == 'tx_commit']
 _C15[0].tiers = ('quick', 'thorough')
 OBLIGATIONS['C05'] += [_C15[0]] + _C05F
 if OBJFILE_TIERS:
@@ -314,8 +324,17 @@ OBLIGATIONS['C09'].append(UNWRAP_OB); OBLIGATIONS['C13'].append(UNWRAP_OB); OBLI
 
 # ----------------------------------------------------------------------------- deriveSymmetric (C02 / C08 / C13 / C09)
 DERIVE_STUBS = {'_ZN7SoftHSM12CreateObjectEmP13_CK_ATTRIBUTEmPmi': 'sink_create', '_ZN5Token7decryptERK10ByteStringRS0_': 'tag_token_decrypt', '_ZN5Token7encryptERK10ByteStringRS0_': 'det_token_encrypt'}
-DERIVE_OBS = [Ob('derive_' + n, 'C09/derive_entry.cpp', ENTRY_REAL_NOP11 + ['crypto/AESKey.cpp', 'crypto/DESKey.cpp'], defines={'MECH': m, 'BS_CAP': 20 if 'ENCRYPT' in m else 10, 'MODEL_OUT_MAX': 4, 'GENERIC': 1 if 'ENCRYPT' in m else 0}, unwind=22 if 'ENCRYPT' in m else 12, stubs=DERIVE_STUBS, caps='common/entry_caps.h', unwind_rules=[(r'ir_memcpy', 120)],
+DERIVE_OBS = [Ob('derive_' + n, 'C09/derive_entry.cpp', ENTRY_REAL_NOP11 + ['crypto/AESKey.cpp', 'crypto/DESKey.cpp'], defines={'MECH': m, 'BS_CAP': 20 if 'ENCRYPT' in m else 10, 'MODEL_OUT_MAX': 4, 'GENERIC': 1 if 'ENCRYPT' in m else 0}, unwind=22 if 'ENCRYPT' in m else 12, stubs=DERIVE_STUBS, caps='common/entry_caps.h', unwind_rules=[(r'ir_memcpy', 120), (r'^harness\.', 20)],
     desc='deriveSymmetric(%s): derived key inherits SENSITIVE / non-EXTRACTABLE from the key(s) it contains whatever the template asks, ALWAYS_SENSITIVE / NEVER_EXTRACTABLE / LOCAL tell the truth, value is exactly the concatenation (encrypted when private), a failed derive leaves no object and no handle' % m,
     bounds='base/second key with symbolic flags and 2-byte values, 2 data bytes, template of 0..2 entries (SENSITIVE, EXTRACTABLE symbolic); CreateObject is a cut', timeout=600, mem=24)
     for (n, m) in (('base_and_data', 'CKM_CONCATENATE_BASE_AND_DATA'), ('data_and_base', 'CKM_CONCATENATE_DATA_AND_BASE'), ('base_and_key', 'CKM_CONCATENATE_BASE_AND_KEY'), ('aes_ecb_data', 'CKM_AES_ECB_ENCRYPT_DATA'))]
 OBLIGATIONS['C02'] += DERIVE_OBS[:3]; OBLIGATIONS['C08'] += DERIVE_OBS[:1] + DERIVE_OBS[2:]; OBLIGATIONS['C13'] += DERIVE_OBS[:1]; OBLIGATIONS['C09'] += DERIVE_OBS[:1]
+
+# ----------------------------------------------------------------------------- plug-in registries (one module per topic)
+# each module defines register(OBLIGATIONS, META) and may use everything defined above through `import obligations`
+import importlib
+# modules listed in plugins_hold.txt are still being built: they are loaded only when named in $VERIF_PLUGINS (comma separated)
+_hold = set(open(os.path.join(os.path.dirname(os.path.abspath(__file__)), 'plugins_hold.txt')).read().split()) - set(os.environ.get('VERIF_PLUGINS', '').split(','))
+for _mod in ('obl_c10', 'obl_c18', 'obl_store', 'obl_entry2'):
+    if _mod not in _hold and os.path.exists(os.path.join(os.path.dirname(os.path.abspath(__file__)), _mod + '.py')):
+        importlib.import_module(_mod).register(sys.modules[__name__])
